@@ -1,4 +1,4 @@
-import MitmVerif.Model.C42
+import MitmVerif.Model.C42_Spec
 import Driver.Proto
 open MitmVerif Driver
 
@@ -56,6 +56,80 @@ def semOf (tbl : List (Ast × List Char)) : Sem Nat :=
     rex := fun c a i => lookup tbl (.rex c a) i
     int := fun c n i => lookup tbl (.int c n) i }
 
+/-! concrete syntax on the wire (prefix notation, one field per token; strings as hex of UTF-8, `-` = empty):
+  C    := a w ATOM | g w1 C w2 | n w C | c (and|or|juxt) k C (w C){k}
+  ATOM := u code | r code w ARG | b ARG | i code w digits
+  ARG  := w text | q quote k ((r|e) char){k} -/
+
+def pChar (h : String) : Option Char :=
+  match strOfHex h with
+  | some [c] => some c
+  | _ => none
+
+def pItems : Nat → List String → Option (List QItem × List String)
+  | 0, ts => some ([], ts)
+  | n + 1, "r" :: h :: ts =>
+    match pChar h, pItems n ts with
+    | some c, some (l, r) => some (QItem.raw c :: l, r)
+    | _, _ => none
+  | n + 1, "e" :: h :: ts =>
+    match pChar h, pItems n ts with
+    | some c, some (l, r) => some (QItem.esc c :: l, r)
+    | _, _ => none
+  | _, _ => none
+
+def pArg : List String → Option (Arg × List String)
+  | "w" :: h :: ts => (strOfHex h).map (fun a => (Arg.word a, ts))
+  | "q" :: qh :: k :: ts =>
+    match pChar qh, k.toNat? with
+    | some q, some n => (pItems n ts).map (fun (l, r) => (Arg.quoted q l, r))
+    | _, _ => none
+  | _ => none
+
+def pAtomC : List String → Option (AtomC × List String)
+  | "u" :: c :: ts => (strOfHex c).map (fun c => (AtomC.unary c, ts))
+  | "r" :: c :: w :: ts =>
+    match strOfHex c, strOfHex w, pArg ts with
+    | some c, some w, some (a, r) => some (AtomC.rex c w a, r)
+    | _, _, _ => none
+  | "b" :: ts => (pArg ts).map (fun (a, r) => (AtomC.bare a, r))
+  | "i" :: c :: w :: d :: ts =>
+    match strOfHex c, strOfHex w, strOfHex d with
+    | some c, some w, some d => some (AtomC.int c w d, ts)
+    | _, _, _ => none
+  | _ => none
+
+def pKind : String → Option Kind
+  | "and" => some .and | "or" => some .or | "juxt" => some .juxt | _ => none
+
+mutual
+partial def pC : List String → Option (C × List String)
+  | "a" :: w :: ts =>
+    match strOfHex w, pAtomC ts with
+    | some w, some (a, r) => some (C.atom w a, r)
+    | _, _ => none
+  | "g" :: w1 :: ts =>
+    match strOfHex w1, pC ts with
+    | some w1, some (e, w2 :: r) => (strOfHex w2).map (fun w2 => (C.group w1 e w2, r))
+    | _, _ => none
+  | "n" :: w :: ts =>
+    match strOfHex w, pC ts with
+    | some w, some (e, r) => some (C.not w e, r)
+    | _, _ => none
+  | "c" :: k :: cnt :: ts =>
+    match pKind k, cnt.toNat?, pC ts with
+    | some k, some n, some (f, r) => (pCL n r).map (fun (l, r') => (C.chain k f l, r'))
+    | _, _, _ => none
+  | _ => none
+partial def pCL : Nat → List String → Option (CL × List String)
+  | 0, ts => some (CL.nil, ts)
+  | n + 1, w :: ts =>
+    match strOfHex w, pC ts with
+    | some w, some (e, r) => (pCL n r).map (fun (l, r') => (CL.cons w e l, r'))
+    | _, _ => none
+  | _, _ => none
+end
+
 def step (line : String) : String :=
   match fields line with
   | "px" :: h :: bits =>
@@ -72,6 +146,11 @@ def step (line : String) : String :=
           let n := match bits with | b :: _ => b.length | [] => 0
           let v := (List.range n).map (fun i => if eval (semOf tbl) t i then '1' else '0')
           shape t ++ " " ++ (if v.isEmpty then "-" else String.ofList v)
+  | "rn" :: ts =>
+    match pC ts with
+    | some (e, []) =>
+      hexOfStr e.render ++ " " ++ (if decide e.WF then "1" else "0") ++ " " ++ shape e.ast
+    | _ => "bad-op"
   | _ => "bad-op"
 
 end C42Drv
